@@ -280,7 +280,10 @@ func frameBytes(c string, i int, fr *cFrame, rng *rand.Rand, pad string) []byte 
 	case "null":
 		return []byte("null")
 	case "badjson":
-		return [][]byte{[]byte(`{"method":"a.b.M",`), []byte(`{"method":"a.b.M"}}`), []byte(`{method:"a.b.M"}`), []byte("\xff\xfe{"), []byte(`{"method":"a.b.M" "parameters":{}}`)}[rng.Intn(5)]
+		return [][]byte{[]byte(`{"method":"a.b.M",`), []byte(`{"method":"a.b.M"}}`), []byte(`{method:"a.b.M"}`), []byte("\xff\xfe{"), []byte(`{"method":"a.b.M" "parameters":{}}`),
+			// a complete call object with something behind it inside the same frame
+			[]byte(`{"method":"a.b.M"} x`), []byte(`{"method":"a.b.M"}{"method":"a.b.M"}`), []byte(`{"method":"a.b.M"}]`), []byte(`{"method":"a.b.M","parameters":{}}null`),
+			[]byte(`{"method":"org.varlink.service.GetInfo"} {`)}[rng.Intn(10)]
 	case "nonobj":
 		return [][]byte{[]byte(`[1]`), []byte(`57`), []byte(`"a.b.M"`), []byte(`true`), []byte(`[{"method":"a.b.M"}]`)}[rng.Intn(5)]
 	case "wrongtype":
